@@ -126,7 +126,7 @@ type Tuple struct {
 	Text string
 	Sev  int
 	Pkg  string
-	Sub  string // tracer submissions: the collected lines before the main line, "SEV text|SEV text"
+	Sub  string // tracer submissions: the collected lines before the main line, "SEV text@origin-package|…"
 }
 
 func (t Tuple) String() string {
@@ -153,12 +153,15 @@ type expectation struct {
 	// counters
 	must, mayN, neverN             int
 	tracerReal, tracerNil, tracerE int
+	// nil-tracer lines logged with a Printf-style method whose fate is decided by the
+	// calling package's level against the global level (exact windows only)
+	nilFPkgQuieter, nilFPkgLouder, nilF, realF int
 }
 
 func subOf(lines []Line) string {
 	var p []string
 	for _, l := range lines {
-		p = append(p, sevName(l.Sev)+" "+l.Text)
+		p = append(p, sevName(l.Sev)+" "+l.Text+"@"+l.Pkg)
 	}
 	return strings.Join(p, "|")
 }
@@ -200,6 +203,11 @@ func (e *expectation) appendTracer(ev Event, w *window, phase int) {
 	switch {
 	case on && !off:
 		e.tracerReal++
+		for _, l := range ev.Trace {
+			if l.F {
+				e.realF++
+			}
+		}
 		e.must++
 		p := len(e.items)
 		e.items = append(e.items, item{tup: sub, next: p + 1, skip: p + 1, phase: phase, win: w})
@@ -207,6 +215,19 @@ func (e *expectation) appendTracer(ev Event, w *window, phase int) {
 		e.tracerNil++
 		for _, l := range ev.Trace {
 			e.appendLine(l, 1, w, phase)
+			if l.F {
+				e.nilF++
+				if len(w.globals) == 1 {
+					pkgSays := enabled(w.globals[0], w.actives[0], w.pkgs[0], l.Sev, l.Pkg)
+					globalSays := l.Sev >= w.globals[0]
+					if globalSays && !pkgSays {
+						e.nilFPkgQuieter++
+					}
+					if !globalSays && pkgSays {
+						e.nilFPkgLouder++
+					}
+				}
+			}
 		}
 	default:
 		e.tracerE++
@@ -285,7 +306,7 @@ func expect(s *Scenario) []*expectation {
 
 var (
 	textRE  = regexp.MustCompile(`^L(\d+):(\d+)(?:\.(\d+))?$`)
-	traceRE = regexp.MustCompile(`▶ (TRAC|DEBU|INFO|WARN|ERRO|CRIT)(?:\x1b\[0m)?     (.*)$`)
+	traceRE = regexp.MustCompile(`(\S+):\d+ ▶ (TRAC|DEBU|INFO|WARN|ERRO|CRIT)(?:\x1b\[0m)?     (.*)$`)
 )
 
 type recvLine struct {
@@ -317,6 +338,10 @@ type Report struct {
 	TracerNil     int
 	TracerEither  int
 	TracerWrites  int // adapter calls carrying collected lines
+	NilFLines     int // nil-tracer lines logged with a Printf-style method
+	NilFQuieter   int // … that only the calling package's (higher) level suppresses
+	NilFLouder    int // … that only the calling package's (lower) level enables
+	RealFLines    int // lines collected by a real tracer with a Printf-style method
 	EchoAdjacent  int // adjacent adapter calls (plain, trace) or (trace, plain) with the same text, severity, file and line
 	BeforeShutdwn int // adapter calls before Shutdown was called
 }
@@ -369,6 +394,10 @@ func Check(s *Scenario, res *Result) *Report {
 		rep.TracerReal += e.tracerReal
 		rep.TracerNil += e.tracerNil
 		rep.TracerEither += e.tracerE
+		rep.NilFLines += e.nilF
+		rep.NilFQuieter += e.nilFPkgQuieter
+		rep.NilFLouder += e.nilFPkgLouder
+		rep.RealFLines += e.realF
 	}
 
 	// expand the stream per goroutine
@@ -394,7 +423,8 @@ func Check(s *Scenario, res *Result) *Report {
 					sub = append(sub, "?? "+raw)
 					continue
 				}
-				sub = append(sub, tm[1]+" "+tm[2])
+				// tm[1] is the tail of the origin file of the collected line ("o/pkga/ops")
+				sub = append(sub, tm[2]+" "+tm[3]+"@"+pkgOfFile(tm[1]))
 			}
 			tup.Sub = strings.Join(sub, "|")
 			if w.Dups > 0 {
